@@ -50,18 +50,19 @@ type RawOp struct {
 }
 
 type Case struct {
-	Family  string  `json:"family"`
-	Base    string  `json:"base"`  // base directory below the sandbox root ("" = the root)
-	TName   string  `json:"tname"` // last component of the target
-	Pre     []RawOp `json:"pre,omitempty"`
-	Events  []Ev    `json:"events,omitempty"`
-	Raw     []RawOp `json:"raw,omitempty"`
-	Foreign bool    `json:"foreign,omitempty"`    // foreign entries planted: property monitors off, model comparison on
-	BadName bool    `json:"bad_name,omitempty"`   // some file name is not a single path component: the model says the Write fails at that file (BADNAME), the implementation's concrete errno is not compared
-	Clock0  int     `json:"clock0,omitempty"`     // version ids below this belong to earlier processes (pre-planted as @v<n>); the first Write of the case gets id clock0
-	Reader  bool    `json:"reader,omitempty"`     // run a concurrent reader goroutine
-	RelTgt  bool    `json:"rel_target,omitempty"` // Options.Target is given relative to the working directory (= sandbox root)
-	Alias   string  `json:"alias,omitempty"`      // how the caller builds the argument of consecutive Writes (see alias.go): shared map, reused buffers, mutation after return; "" = a fresh map per call, never touched again
+	Family  string     `json:"family"`
+	Base    string     `json:"base"`  // base directory below the sandbox root ("" = the root)
+	TName   string     `json:"tname"` // last component of the target
+	Pre     []RawOp    `json:"pre,omitempty"`
+	Events  []Ev       `json:"events,omitempty"`
+	Raw     []RawOp    `json:"raw,omitempty"`
+	Foreign bool       `json:"foreign,omitempty"`    // foreign entries planted: property monitors off, model comparison on
+	BadName bool       `json:"bad_name,omitempty"`   // some file name is not a single path component: the model says the Write fails at that file (BADNAME), the implementation's concrete errno is not compared
+	Clock0  int        `json:"clock0,omitempty"`     // version ids below this belong to earlier processes (pre-planted as @v<n>); the first Write of the case gets id clock0
+	Reader  bool       `json:"reader,omitempty"`     // run a concurrent reader goroutine
+	RelTgt  bool       `json:"rel_target,omitempty"` // Options.Target is given relative to the working directory (= sandbox root)
+	Multi   *MultiCase `json:"multi,omitempty"`      // several targets in one base directory (multi.go); the single-target fields above are unused
+	Alias   string     `json:"alias,omitempty"`      // how the caller builds the argument of consecutive Writes (see alias.go): shared map, reused buffers, mutation after return; "" = a fresh map per call, never touched again
 }
 
 func (c Case) key() string {
@@ -575,6 +576,10 @@ func (w *world) rawStep(drv *lib.Drv, op RawOp, what string) {
 }
 
 func runCase(c Case, drv *lib.Drv, res *lib.Result, work string, n int) {
+	if c.Multi != nil {
+		runMulti(c, res, work, n)
+		return
+	}
 	w, err := newWorld(c, work, n, res)
 	if err != nil {
 		res.Note("sandbox: " + err.Error())
@@ -766,7 +771,7 @@ func main() {
 		return
 	}
 	fl := lib.ParseFlags()
-	res := lib.NewResult("unit of evaluations = one step applied to the implementation (a Write/crash/restart event, a pre-planted or raw os.* operation); traces_validated_against_impl = those steps whose result (err, whole tree, reader's view, version ids) was compared with the model and agreed (<= evaluations; steps the model declares UNMODELLED are evaluated but not compared). distinct_nontrivial counts distinct HISTORIES: non-trivial if a Write in it is killed strictly inside its file-system steps (0 < done < all) or two Writes of it share a file name; raw-operation cases are never counted as non-trivial. Alias families (Case.alias: the arguments of consecutive Writes share the map / byte slices, or the caller modifies them right after Write returned) are judged against snapshots of the sets. Complete enumerations (every hook point of every Write of the family's histories): crash1, crash2, kill1, kill2 (quick: every 2nd point pair), prior, prior-kill (quick: every 2nd point), nocrash, foreign, badname, reltarget, restart, corpus, alias-nocrash, alias-crash, alias-kill (quick: every 2nd point), alias-badname, alias-reltarget, alias-restart; seeded random samples: random, alias-random, rawfs, reader, alias-reader (real scheduling) — hence exhaustive=false for the run as a whole")
+	res := lib.NewResult("unit of evaluations = one step applied to the implementation (a Write/crash/restart event, a pre-planted or raw os.* operation); traces_validated_against_impl = those steps whose result (err, whole tree, reader's view, version ids) was compared with the model and agreed (<= evaluations; steps the model declares UNMODELLED are evaluated but not compared). distinct_nontrivial counts distinct HISTORIES: non-trivial if a Write in it is killed strictly inside its file-system steps (0 < done < all) or two Writes of it share a file name; raw-operation cases are never counted as non-trivial. Alias families (Case.alias: the arguments of consecutive Writes share the map / byte slices, or the caller modifies them right after Write returned) are judged against snapshots of the sets. Complete enumerations (every hook point of every Write of the family's histories): crash1, crash2, kill1, kill2 (quick: every 2nd point pair), prior, prior-kill (quick: every 2nd point), nocrash, foreign, badname, reltarget, restart, corpus, alias-nocrash, alias-crash, alias-kill (quick: every 2nd point), alias-badname, alias-reltarget, alias-restart; seeded random samples: random, alias-random, rawfs, reader, alias-reader (real scheduling); multi-target families (Case.multi: several Dir instances whose targets share one base directory, names that are suffixes/prefixes of one another; judged by the model-independent monitors of multi.go only, never compared with the model; a multi case counts as non-trivial when it has >= 2 targets): multi-pair, multi-all, multi-crash (complete over the hook points of the killed Write; quick: a third of the ordered name pairs), multi-random (seeded) — hence exhaustive=false for the run as a whole")
 	work := fl.Work
 	if work == "" {
 		work, _ = os.MkdirTemp("", "c18")
@@ -820,6 +825,9 @@ func main() {
 	}
 	rng := lib.NewRand(fl.Seed)
 	for _, c := range generate(fl.Tier, fl.Search, rng) {
+		runOne(c)
+	}
+	for _, c := range multiCases(fl.Tier, fl.Search, rng.Fork()) {
 		runOne(c)
 	}
 	res.Exhaustive = false
